@@ -25,6 +25,14 @@ def segments(prod, case):
     return out
 
 
+def segment_start(prod, rid):
+    for f in prod.features:
+        if f.type == "source" and str(f.qualifiers.get("label", "")).startswith("source: ") \
+                and f.qualifiers["plasmid"] == rid:
+            return int(f.location.start)
+    return None
+
+
 def check_case(ctx, case):
     r0, p0, _ = impl.run_asm(asm.asm_op(case))
     if r0.split("\t")[0] != "ok":
@@ -53,8 +61,8 @@ def check_case(ctx, case):
             a1 = str(p1.seq)
             seg0 = dict(s0)[rid]
             seg1 = dict(s1)[rid]
-            k0 = a0.find(seg0)
-            if a0[:k0] + seg1 + a0[k0 + len(seg0):] != a1 and a0.count(seg0) == 1:
+            k0 = segment_start(p0, rid)      # where the generated source feature places the segment
+            if k0 is None or a0[k0:k0 + len(seg0)] != seg0 or a0[:k0] + seg1 + a0[k0 + len(seg0):] != a1:
                 ctx.fail("the new product is not the old one with only that module's segment replaced", case)
             if seg1.upper() != case["expected_segment"].upper():
                 ctx.fail("the replaced segment is {!r}, expected {!r}".format(seg1, case["expected_segment"]), case)
